@@ -7,6 +7,7 @@ ASSUME = [
     'disconnect points: every prefix of the client filtered sequence (between and inside batches); lag: the node reconnected to has applied 0..n batches, an applier thread adds the rest while the request runs',
     'the consumer of the message channel (handleGetMessages loop) is mirrored: always ready, filters by recipient; the HTTP layer is not part of this tier',
     'resume points are newer than the compaction horizon (no Delete in these programs)',
+    'API tier (TestVerifC04Api): three histories are applied by the real in-process node (real FSM and sendMessages, so the stored batches are the real ones: bursts, replies nobody receives, several recipients); for every session and EVERY message of the stream it was served, GET ...?lastseen=<that id> through the real handler must deliver exactly the rest; on the live node and after a restart',
 ]
 RULE = ('cases = history x cut x lag; every schedule of {getMessages reader || applier} within the preemption bound; oracle at quiescence: already received prefix + '
         'messages delivered on the new connection == messages addressed to the session, in id order, none missing, none twice; a case is non-trivial when its schedules yield >=2 distinct observations')
@@ -18,7 +19,9 @@ def build():
     return vlib.build_test('./internal/api', os.path.join(vlib.BUILD, 'c04.test'), ov)
 
 def prebuild():
+    import apidrive
     build()
+    apidrive.build()
 
 def reexec(binary, v, count=5):
     sd = vlib.scratch_dir()
@@ -48,6 +51,20 @@ def run(tier):
         rr = reexec(binary, v, 5)
         if not rr['identical'] or not rr['reproduced']:
             print('HARNESS-NONDETERMINISM: %s did not reproduce identically: %s' % (v['sig'], rr['runs'])); raise SystemExit(3)
+    # API tier: resume at every position of real streams (real FSM, real sendMessages, real handler)
+    import apidrive
+    ra = vlib.run_workers(apidrive.build(), 'TestVerifC04Api', 6, env={'GOMAXPROCS': '2'})
+    herr = [r['harness_error'] for r in ra if r.get('harness_error')]
+    if herr:
+        print('HARNESS-ERROR: ' + herr[0]); raise SystemExit(3)
+    for r in ra:
+        for v in r.get('violations') or []:
+            if v['sig'] in bysig: bysig[v['sig']]['count'] += v.get('count', 1)
+            else:
+                bysig[v['sig']] = v; merged.append(v)
+    streams = {}
+    for r in ra:
+        for k, c in (r.get('end_states') or {}).items(): streams[k] = streams.get(k, 0) + c
     outcomes = {}
     for r in rs:
         for k, c in r['outcomes'].items(): outcomes[k] = outcomes.get(k, 0) + c
@@ -58,6 +75,7 @@ def run(tier):
         'cases': sum(r['cases'] for r in rs), 'schedules': sum(r['executions'] for r in rs), 'scheduling_points': sum(r['points'] for r in rs),
         'schedule_outcomes': outcomes, 'cases_with_2plus_observations': sum(r['cases_with_2plus_observations'] for r in rs),
         'preemption_bound': rs[0]['preemption_bound'], 'cases_truncated_by_cap': truncated,
+        'api_tier': {'nodes': sum(r.get('sequences', 0) for r in ra), 'resume_points': sum(r.get('ops', 0) for r in ra), 'streams': streams},
         'samples': sum([r.get('samples') or [] for r in rs], [])[:8], 'exhaustive': truncated == 0, 'rule': RULE,
     }
     vlib.finish('C04', tier, 'model_checking', cov, merged, t0, assumptions=ASSUME)
